@@ -360,6 +360,88 @@ def h_struct(ctx, which, nfields):
     _check_commands(ctx, machine, buf, (), (X, Y, 0))
 
 
+def h_vcpu_history(ctx):
+    """Per-core fields through ONE controller, several accesses: on two chips
+    whose sv.vcpu_base differ, and on one chip whose sv.vcpu_base is rewritten
+    (through the controller itself) between two accesses.  Every access must
+    go to base-of-that-chip-now + 128 * core + offset."""
+    from rig.machine_control import MachineController
+    from sx.shims import struct as sstruct
+    buf = 16
+    machine, world, patch = _controller(ctx, buf)
+    X2, Y2 = 1, 0
+    with patch:
+        mc = MachineController("host")
+        sv = mc.structs[b"sv"]
+        vcpu = mc.structs[b"vcpu"]
+        vb_field = sv[b"vcpu_base"]
+        bases = {}
+        for chip in ((X, Y), (X2, Y2)):
+            vb = ctx.bv("vcpu_base", 30)
+            bases[chip] = vb
+            machine.memory(chip).write(sv.base + vb_field.offset,
+                                       sstruct.pack("<I", vb))
+        shape = ctx.pick(["two chips", "base moved"])
+        steps = []
+        if shape == "two chips":
+            steps = [("access", (X, Y)), ("access", (X2, Y2))]
+        else:
+            steps = [("access", (X, Y)), ("move", (X, Y)),
+                     ("access", (X, Y))]
+        for nstep, (what, chip) in enumerate(steps):
+            mark = len(machine.log)
+            try:
+                if what == "move":
+                    nb = ctx.bv("new_base", 30)
+                    mc.write_struct_field("sv", "vcpu_base", nb, *chip)
+                    bases[chip] = nb
+                    ctx.observe("moved")
+                    continue
+                # the first access is a plain read; the last one is any
+                fname, op = "cpu_state", "read"
+                if nstep:
+                    fname = ctx.pick(["cpu_state", "user0"])
+                    op = ctx.pick(["read", "write"])
+                field = vcpu[fname.encode("ascii")]
+                p = ctx.bv("p", 5)
+                ctx.assume(p <= 17)
+                address = bases[chip] + vcpu.size * p + field.offset
+                if op == "read":
+                    val = mc.read_vcpu_struct_field(fname, chip[0], chip[1],
+                                                    p)
+                    ctx.observe("read", fname, val)
+                else:
+                    value = ctx.bv("value", 8)
+                    mc.write_vcpu_struct_field(fname, value, chip[0],
+                                               chip[1], p)
+                    ctx.observe("written", fname)
+            except Exception as e:
+                ctx.observe(type(e).__name__)
+                ctx.prove(False, "memory-unexpected-exception", repr(e))
+                return
+            whole = b"<" + field.pack_chars
+            full = sstruct.calcsize(whole)
+            cmds = [q for q in machine.log[mark:] if int(q.cmd) in (2, 3)]
+            ctx.prove(len(cmds) >= 1, "struct-field-commands")
+            if not cmds:
+                return
+            last = cmds[-1]
+            ctx.prove(sand(last.dest_x == chip[0], last.dest_y == chip[1],
+                           last.dest_cpu == 0), "struct-field-wrong-core")
+            ctx.prove(last.arg1 == address, "struct-field-wrong-address",
+                      (fname, chip, last.arg1, address))
+            raw = machine.memory(chip).read(address, full)
+            exp = sstruct.unpack(whole, raw)[0]
+            if op == "read":
+                ctx.prove(val == exp, "struct-field-wrong-value",
+                          (fname, val, exp))
+            else:
+                ctx.prove(exp == value, "struct-field-wrong-value",
+                          (fname, exp, value))
+            ctx.witness("history-" + op)
+    _check_commands(ctx, machine, buf, (), (X, Y, 0))
+
+
 def units(tier, seed):
     us = []
     q = tier == "quick"
@@ -385,6 +467,9 @@ def units(tier, seed):
     us.append(Unit("vcpu fields", h_struct,
                    dict(which="vcpu", nfields=6 if q else 10 ** 6), split=4,
                    witnesses=("vcpu-read", "vcpu-write")))
+    us.append(Unit("vcpu fields, one controller, several accesses",
+                   h_vcpu_history, {}, split=5,
+                   witnesses=("history-read", "history-write")))
     # network faults under the transfers (windowed bursts of chunks)
     FK = ("lose_req", "lose_rep", "dup")
     us.append(Unit("write with faults", h_rw, dict(
